@@ -22,7 +22,9 @@ CLAUSES = (
     'completion skips failed / submit-failed; the submit number is written '
     'only at the listed sites and incremented once per job preparation (when '
     'not already preparing); the waiting_on_job_prep mark is cleared before every '
-    'recorded job-preparation failure. Not decided: the (N+1)(M+1) run-count bound over '
+    'recorded job-preparation failure. '
+    'Retry timers are restored on restart with their recorded count, whatever the task state. '
+    'Not decided: the (N+1)(M+1) run-count bound over '
     'schedules with retry timers.')
 
 TP = 'task_pool'
